@@ -1,5 +1,5 @@
 import VtProofs.JsonGrammar
-import VtProofs.TileJson
+import VtProofs.TileJsonFull
 /-!
 # C17 — JSON round trips and containers hand back the TileJSON they were given
 
@@ -223,6 +223,19 @@ theorem fromObject_asObject_partial (laws : TjLaws nu) (A B : List (Key × TJVal
     fromObject nu (asObject nu t) = some t :=
   fromObject_asObject_values nu laws A B w hs hk hw
 
+/-- **C17d**: `from_object(as_object(t)) = Ok(t)` for EVERY well-formed TileJSON document
+    (`DocWF`: the maps are strictly sorted as `BTreeMap`s are, `values` holds the key `tilejson`
+    as every Rust `TileJsonValues` does, no generic value sits under `bounds`/`center`/
+    `vector_layers`, bytes and zooms are `u8`): any combination of bounds, center, vector layers
+    (any number of layers, each with any fields/description/minzoom/maxzoom) and string / list /
+    byte values. -/
+theorem fromObject_asObject (laws : TjLaws nu) (t : TileJSON M) (h : DocWF t) :
+    fromObject nu (asObject nu t) = some t := fromObject_asObject_full nu laws t h
+
+/-- one vector layer survives `as_json_object` + `id` → `VectorLayers::from_json` -/
+theorem tilejson_layer_roundtrip (laws : TjLaws nu) (id : Key) (l : VectorLayer) (hw : LayerWF l) :
+    layerOfJson nu (layerToJson nu id l) = some (id, l) := layer_roundtrip nu laws id l hw
+
 /-- non-vacuity: a number type satisfying `TjLaws`, and a document satisfying the hypotheses -/
 def natNum : TjNum Nat :=
   { ofByte := id, toByte? := fun n => if n ≤ 255 then some n else none, asU8 := fun n => if n ≤ 255 then n else 255, max := Nat.max, min := Nat.min }
@@ -241,6 +254,27 @@ example :
   · simp only [SortedKeys, List.cons_append, List.nil_append, List.pairwise_cons, List.Pairwise.nil]; decide
   · intro p hp; simp at hp; rcases hp with rfl | rfl | rfl | rfl <;> (simp only [Typed]; decide)
   · intro p hp; simp at hp; rcases hp with rfl | rfl | rfl | rfl <;> simp [TJValue.WF]
+
+/-- non-vacuity of `DocWF` with every typed field present -/
+def demoDoc : TileJSON Nat :=
+  { bounds := some (1, 2, 3, 4), center := some (5, 6, 7),
+    values := [("maxzoom".toList, .byte 14), (kTilejson, .str "3.0.0".toList), ("tiles".toList, .list ["x".toList])],
+    layers := [("a".toList, { fields := [("f".toList, "String".toList)], description := some "d".toList, minzoom := some 0, maxzoom := none }),
+               ("b".toList, { fields := [], description := none, minzoom := none, maxzoom := some 14 })] }
+
+theorem demoDoc_wf : DocWF demoDoc where
+  sorted := by simp only [demoDoc, SortedKeys, List.pairwise_cons, List.Pairwise.nil]; decide
+  hasTilejson := ⟨.str "3.0.0".toList, by simp [demoDoc]⟩
+  untyped := by intro p hp; simp [demoDoc] at hp; rcases hp with rfl | rfl | rfl <;> (simp only [Typed]; decide)
+  bytes := by intro p hp; simp [demoDoc] at hp; rcases hp with rfl | rfl | rfl <;> simp [TJValue.WF]
+  zoom := by intro c hc; simp [demoDoc] at hc; subst hc; decide
+  layersSorted := by simp only [demoDoc, SortedKeys, List.pairwise_cons, List.Pairwise.nil]; decide
+  layersWF := by
+    intro p hp; simp [demoDoc] at hp
+    rcases hp with rfl | rfl <;> (refine ⟨?_, ?_, ?_⟩ <;> simp [SortedKeys])
+
+example : fromObject natNum (asObject natNum demoDoc) = some demoDoc :=
+  fromObject_asObject natNum natLaws demoDoc demoDoc_wf
 
 /-! ### served `tiles.json` = stored metadata + `tiles` template + narrowed bounds/zoom -/
 
